@@ -30,3 +30,5 @@ def run(check):
     check.run_rule('C11.R5', lambda c: rule_annotate_survives_discovery(c, 'C11.R5'))
     from ..rules_classes import rule_concile_compares_denotation
     check.run_rule('C11.R6', lambda c: rule_concile_compares_denotation(c, 'C11.R6'))
+    from ..rules_classes import rule_annotations_paired_with_owner
+    check.run_rule('C11.R7', lambda c: rule_annotations_paired_with_owner(c, 'C11.R7'))
